@@ -33,7 +33,7 @@ MATCHERS = {
   "c40_doublestar_keyword": lambda v: _returned_tree(v) and _offending(v) == {"keyword:**"},
 }
 
-N_RANDOM = {"quick": 6000, "thorough": 120000}
+N_RANDOM = {"quick": 6000, "thorough": 80000}
 
 
 def _items(ctx):
@@ -41,7 +41,9 @@ def _items(ctx):
   space, model = fnspec.enumerate_inputs("MC_Predicate", cfg, ctx.workdir)
   envs = os.path.join(ctx.workdir, "std-envs.json")
   json.dump(space["envs"], open(envs, "w"))
-  items = [{"expr": e, "style": s} for e in space["exprs"] for s in space["styles"]]
+  styles = space["styles"]
+  items = [{"expr": e, "style": s} for e in space["wide"] for s in styles]
+  items += [{"expr": e, "style": styles[k % len(styles)]} for k, e in enumerate(space["narrow"])]
   items += [{"expr": e, "style": "min"} for e in space["unsup"]]
   return space, model, envs, items, cfg
 
@@ -72,16 +74,16 @@ def _split(failures):
 
 def run(ctx):
   space, model, envs, items, cfg = _items(ctx)
-  ctx.log("TLC enumerated %d expressions + %d out-of-subset (%d distinct states) in %.1fs"
-          % (len(space["exprs"]), len(space["unsup"]), model["distinct"], model["wall"]))
+  ctx.log("TLC enumerated %d + %d expressions + %d out-of-subset (%d distinct states) in %.1fs"
+          % (len(space["wide"]), len(space["narrow"]), len(space["unsup"]), model["distinct"], model["wall"]))
   extra = {"envs": envs}
-  files = fnspec.run_cases("fn_predicate.py", items, ctx.workdir, extra=extra, per_shard=1500,
-                           nshards=max(1, min(48, len(items) // 1500)))
+  files = fnspec.run_cases("fn_predicate.py", items, ctx.workdir, extra=extra,
+                           nshards=16 if ctx.quick else 32)
   nrand = N_RANDOM[ctx.tier]
   per = 500
   rand_items = [{"rand": ctx.seed * 1000003 + k, "n": per} for k in range(nrand // per)]
   rfiles = fnspec.run_cases("fn_predicate.py", rand_items, ctx.workdir, extra=extra, tag="rand",
-                            nshards=min(16, len(rand_items)))
+                            nshards=4 if ctx.quick else 16)
   failures, n, wall = fnspec.judge("Trace_Predicate", files + rfiles, ctx.workdir)
   ctx.log("TLC judged %d recorded runs in %.1fs" % (n, wall))
 
@@ -122,7 +124,8 @@ def run(ctx):
     "states": model["distinct"] + n, "transitions": model["generated"] + n,
     "traces_validated_against_impl": n,
     "evaluations": n, "distinct_nontrivial": stats["in_subset"],
-    "rule": "TLC enumerates every abstract expression within the bound of %s (rendered in 3 styles) and every "
+    "rule": "TLC enumerates every abstract expression within the bound of %s (the wide family rendered in 3 styles, "
+            "the narrow family in one style each) and every "
             "out-of-subset construct in 9 contexts; %d further texts are generated from seed %d (deeper expressions, "
             "random environments, inserted out-of-subset constructs, token mutations); non-trivial = text in the "
             "supported subset, i.e. parsed, JSON-checked and evaluated by the node semantics in every environment"
